@@ -24,6 +24,16 @@ RULE = ("Timeslot methods on every pair of slots of a 0..4 grid (negative durati
         "deep copies / flood() of earlier results, results annotated in place (put, categorize, tag) before later calls, "
         "results fed back, the same object on both sides - through the module function, the aw_transform export and the "
         "aw_query.functions registry; every call judged and modelled on its own arguments as they are at call time; "
+        "ROUND 5 (harness/c09_edge.py, generic parts harness/txedge.py): the list parameters handed over as tuple / deque / list "
+        "subclass / one-shot generator / iter() / reversed / map / filter objects (every kind on each side and on both sides of "
+        "filter_period_intersect, the pairs period_union's `events1 + events2` supports; ordered, reversed and shuffled hand-over), "
+        "compared with the list run on equal fresh objects, the caller's events, data (added keys, types) and containers untouched; "
+        "event data of other dict TYPES (defaultdict, Counter, OrderedDict, a __missing__ subclass, str / int subclasses as values): "
+        "pieces carry e's data typed; NUMERIC EXTREMES: layouts at instants of the years 1..9999, one event over the whole datetime "
+        "range against short ones in every millennium, durations at and beyond 2**53 us, ends at the last millisecond of "
+        "datetime.max (domain: every start and end is a representable datetime; beyond it only counted); FAULTS: data nested "
+        "300..900 (random to 1200) deep under the default recursion limit and a one-off MemoryError injected at every deepcopy "
+        "invocation of a call - the call raises the fault or returns exactly the fault-free result; "
         "non-trivial = distinct canonical case with at least one "
         "positively overlapping pair (intersection) or at least one merge (union); for a history call: second or later "
         "call of its session with a non-empty result")
@@ -626,6 +636,10 @@ def main(argv=None):
                                   json.dumps([small[0], [list(x) for x in small[1]], [list(x) for x in small[2]]]
                                              + list(small[3:])))})
 
+    # ---- round 5 (harness/c09_edge.py): containers other than list, data dict types, numeric extremes, faults
+    from . import c09_edge
+    c09_edge.run(ck, Event, fpi, labels, wire, checks, empty, sys.modules[__name__])
+
     if have_driver:
         model = common.run_driver("C09", wire)
         for (stream, desc, exp, replay), mo in zip(checks, model):
@@ -642,7 +656,7 @@ def main(argv=None):
             else:
                 got = json.loads(json.dumps(got))
             if got != want:
-                ck.disagreement(stream, f"{desc}: model {got} impl {want}", dict(replay, model=mo))
+                ck.disagreement(stream, f"{desc}: model {got} impl {want}", dict(replay() if callable(replay) else replay, model=mo))
         for b in (1, 2, 3, 4):
             if not ck.dist.get("model-branch-%d" % b):
                 ck.coverage.setdefault("unreached_model_branches", []).append(b)
